@@ -19,10 +19,22 @@
        (=> ((_ is mk_UnaryExpr) n) (primaryShape (UnaryExpr.X n)))
        (=> ((_ is mk_IndexExpr) n) (primaryShape (IndexExpr.X n)))))
 (declare-deep shapeOK shapeOKList shapeLocal)
+; C10: bracket and keyword spans are recorded in the positions they were read from: an opening bracket lies before
+; its closing bracket (both recorded), `in` before its list, a join's ')' before `on`, `with` before its '('
+(define-fun before ((a Span) (b Span)) Bool (and (spanValid a) (spanValid b) (<= (Span.End a) (Span.Start b))))
+(define-fun bracketLocal ((n Node)) Bool
+  (and (=> ((_ is mk_ParenExpr) n) (before (ParenExpr.Lparen n) (ParenExpr.Rparen n)))
+       (=> ((_ is mk_CallExpr) n) (before (CallExpr.Lparen n) (CallExpr.Rparen n)))
+       (=> ((_ is mk_InExpr) n) (and (before (InExpr.In n) (InExpr.Lparen n)) (before (InExpr.Lparen n) (InExpr.Rparen n))))
+       (=> ((_ is mk_IndexExpr) n) (before (IndexExpr.Lbrack n) (IndexExpr.Rbrack n)))
+       (=> ((_ is mk_JoinOperator) n) (and (before (JoinOperator.Lparen n) (JoinOperator.Rparen n)) (before (JoinOperator.Rparen n) (JoinOperator.On n))))
+       (=> ((_ is mk_RenderOperator) n) (=> (spanValid (RenderOperator.With n))
+            (and (before (RenderOperator.With n) (RenderOperator.Lparen n)) (before (RenderOperator.Lparen n) (RenderOperator.Rparen n)))))))
+(declare-deep bracketsOK bracketsOKList bracketLocal)
 ; what the parser delivers about every node: Span() is safe on it and it has the prescribed shape
 ; ... and Walk can traverse it (walkWF: every mandatory child is present; the precondition of C11)
-(define-fun nodeOK ((n Node)) Bool (and (spanSafe n) (shapeOK n) (walkWF n)))
-(define-fun nodeOKList ((l Seq_Node) (n Int)) Bool (and (spanSafeList l n) (shapeOKList l n) (walkWFL l n)))
+(define-fun nodeOK ((n Node)) Bool (and (spanSafe n) (shapeOK n) (walkWF n) (bracketsOK n)))
+(define-fun nodeOKList ((l Seq_Node) (n Int)) Bool (and (spanSafeList l n) (shapeOKList l n) (walkWFL l n) (bracketsOKList l n)))
 ; render properties are not walkable nodes of their own: Walk visits their name and value
-(define-fun propOK ((n Node)) Bool (and (spanSafe n) (shapeOK n) (walkWF (RenderProperty.Name n)) (walkWFopt (RenderProperty.Value n))))
-(define-fun propsOKList ((l Seq_Node) (n Int)) Bool (and (spanSafeList l n) (shapeOKList l n) (walkWFprops l n)))
+(define-fun propOK ((n Node)) Bool (and (spanSafe n) (shapeOK n) (bracketsOK n) (walkWF (RenderProperty.Name n)) (walkWFopt (RenderProperty.Value n))))
+(define-fun propsOKList ((l Seq_Node) (n Int)) Bool (and (spanSafeList l n) (shapeOKList l n) (bracketsOKList l n) (walkWFprops l n)))
